@@ -755,7 +755,10 @@ impl Namer {
     /// (directive text, relative path with '/')
     fn next(&mut self, syn: Syntax, ext: &str) -> (String, String) {
         self.n += 1;
-        let rel = format!("{}inc_{}.{}", SUBDIRS[syn.subdir], self.n, ext);
+        // file names start with different letters so that a `\` separator is followed by n, r, t, ... as well (a name is not a
+        // string literal: `"sub\tables_3.a2l"` names the file tables_3.a2l in sub)
+        const STEMS: [&str; 6] = ["inc", "tables", "net", "regs", "x", "0data"];
+        let rel = format!("{}{}_{}.{}", SUBDIRS[syn.subdir], STEMS[self.n % STEMS.len()], self.n, ext);
         let written = if syn.backslash { rel.replace('/', "\\") } else { rel.clone() };
         let directive = if syn.quoted {
             format!("/include \"{}\"", written)
